@@ -89,6 +89,14 @@ type workerProc struct {
 	env  []string
 	dead bool
 	tail *tailBuffer
+	dl   time.Duration
+}
+
+func (w *workerProc) deadline() time.Duration {
+	if w.dl > 0 {
+		return w.dl
+	}
+	return askDeadline
 }
 
 type tailBuffer struct {
@@ -171,6 +179,14 @@ func startWorker(env []string) (*workerProc, error) {
 	return &workerProc{cmd: cmd, in: in, out: bufio.NewReaderSize(outp, 1<<20), env: env, tail: tb}, nil
 }
 
+// errWorkerTimeout: the worker did not answer within the deadline (it has been killed).
+type errWorkerTimeout struct{ detail string }
+
+func (e errWorkerTimeout) Error() string { return "worker did not answer in time: " + e.detail }
+
+// askDeadline is the per-request deadline; generous, because the machine may be busy.
+var askDeadline = 300 * time.Second
+
 // errWorkerDied is returned when the worker process ended while serving a request: the request is the culprit.
 type errWorkerDied struct{ detail string }
 
@@ -218,11 +234,11 @@ func (w *workerProc) ask(prop string, c Case) (string, error) {
 			return line[3:], nil
 		}
 		return "", fmt.Errorf("worker: %s", line)
-	case <-time.After(120 * time.Second):
+	case <-time.After(w.deadline()):
 		w.dead = true
 		w.cmd.Process.Kill()
 		w.cmd.Wait()
-		return "", errWorkerDied{"no answer within 120s (hang) | " + lastLines(w.tail.String(), 25)}
+		return "", errWorkerTimeout{fmt.Sprintf("no answer within %v", w.deadline())}
 	}
 }
 
